@@ -35,4 +35,11 @@ theorem growth_eq (l a : Nat) (hl : l ≤ MAX_LEN) (ha : l + a < 2 ^ 64) :
 -- non-vacuity: the hypotheses are met by an ordinary growth step (len 100, +1 → 150)
 example : (100 ≤ MAX_LEN ∧ 100 + 1 < 2 ^ 64) ∧ Gen.amortizedGrowth 100 1 = 150 := by decide
 
+/-- growth is computed from (len, additional) at the one in-place site, and every copy-out
+site passes the caller's `additional` unchanged -/
+theorem growth_sites :
+    Gen.growthCallArgs = ["len, additional"] ∧
+    Gen.withAdditionalCallArgs = ["str, additional", "self.as_str(), additional", "self.as_str(), additional"] :=
+  ⟨rfl, rfl⟩
+
 end LS.C12
